@@ -4,7 +4,7 @@ import struct
 ID = "C04"
 PROPS = "Props/C04.v"
 COQ_TIMEOUT = 5400   # Coq build of this property incl. rebuilt dependencies; generous: on a loaded machine a rebuild after an upstream edit took > 1500 s
-GEN = ["sm3iv", "sm3consts"]
+GEN = ["sm3iv", "sm3consts", "sm3code"]
 LEGS = [
     {"driver": "c04", "runner": ("sm3", "Extract/ExtractSM3.v", "Sm3_model")},
     {"driver": "c04w", "runner": ("sm3", "Extract/ExtractSM3.v", "Sm3_model"), "tags": "verif"},
@@ -35,7 +35,7 @@ TRUSTED_BASE = [
     "the standard's examples A.1, A.2 are Examples by vm_compute",
     "model coq/SM3/SM3Model.v written by hand from sm3/sm3.go, Go 1.23 crypto/hmac/hmac.go and x/crypto/pbkdf2/pbkdf2.go; tied by the correspondence run of this check",
     "model and specification share the word operations trunc32/add32/rotl32/not32; these are proved equal to mod 2^32, + mod 2^32, 2^32-1-x, (x*2^k) mod 2^32 + x/2^(32-k) on words < 2^32, every intermediate value of CF is proved < 2^32, and sm3 = sm3_a (SM3Arith.v: arithmetic only, bitwise xor/and/or kept as the standard's bit operations)",
-    "translator harness/cmd/gen targets sm3iv (the eight IV words of Reset -> coq/Gen/SM3IV.v) and sm3consts (rotation amounts, T constants, loop bounds, array sizes, index offsets, block/digest size, pad constants, update==update2 flag -> coq/Gen/SM3Consts.v; theorems C04_constants_from_source, C04_model_uses_source_constants)",
+    "translator harness/cmd/gen targets sm3iv (IV of Reset -> Gen/SM3IV.v), sm3code (block body of update and update2 and the length bytes of pad translated statement by statement, loops as folds, uint32 arithmetic with explicit wrap -> Gen/SM3Code.v; theorem C04_generated_compression_is_model: generated = hand model = CF) and sm3consts (constants of the parts that stay hand-modelled: block loop 64/64, array sizes, pad's 0x80/0x00/64/56, BlockSize, Size, len(p)*8 -> Gen/SM3Consts.v; theorems C04_constants_from_source, C04_model_uses_source_constants)",
     "extraction: ExtrOcamlBasic only (Extract Inductive bool, option, unit, list, prod, sumbool, sumor; Extract Inlined Constant andb, orb); nat/positive/N stay inductive",
     "OCaml 4.13.1 + dune; runner ocaml/sm3/main.ml and ocaml/conv.ml.tmpl (hex and int conversions, the shared LCG byte stream)",
     "Go drivers harness/cmd/c04 (public API only) and harness/cmd/c04w (hooks sm3.VerifSetState / VerifGetState / VerifTailOverlaps in /repo/sm3/verif_state_verif.go; gmtls.VerifPrfSM3 / VerifNewMacSM3 in /repo/gmtls/verif_prfsm3_verif.go)",
